@@ -452,6 +452,11 @@ class SqlImpl(TableImpl):
                 for name, uid, val in zip(nd.names, nd.uuids, nd.values, strict=True)
             }
             query.group_by.extend(col._uuid for col in query.partition_by if not types.is_const(col.dtype()))
+            if query.partition_by and not query.group_by:
+                # only constant grouping columns (they cannot appear in GROUP BY): one group, but none for an empty input
+                non_empty = ColFn(ops.greater_than, ColFn(ops.count_star), LiteralCol(0))
+                non_empty.ftype(agg_is_window=False)
+                query.having.append(non_empty)
             # a grouping column overwritten by an aggregate is not selected anymore
             query.select = [
                 col._uuid for col in query.partition_by if sqa_expr[col._uuid].name not in set(nd.names)
